@@ -442,8 +442,12 @@ def basis_cases(draw, max_len):
 def symmetric_bases(draw):
     """bases closed (or nearly) under symmetries of the square: a pin permutation of 5-6 points and
     one or two of its images, in a drawn order, sometimes with a short extra element"""
-    p = tuple(draw(st.sampled_from(pin_perms(draw(st.sampled_from([5, 6, 6]))))))
-    syms = draw(st.lists(st.sampled_from([g for g in ref.SYMS if g != "id"]), min_size=1, max_size=2, unique=True))
+    n = draw(st.sampled_from([5, 6, 6]))
+    tab = pin.words_of_perm_table(n)
+    # permutations with hundreds of pin words (the nearly monotone ones) cost a minute per basis
+    p = tuple(draw(st.sampled_from(sorted(q for q in tab if len(tab[q]) <= 48))))
+    # (three elements of 6 points cost minutes: unions of large automata through five routes)
+    syms = draw(st.lists(st.sampled_from([g for g in ref.SYMS if g != "id"]), min_size=1, max_size=2 if len(p) < 6 else 1, unique=True))
     basis = [list(p)] + [list(ref.sym_perm(g, p)) for g in syms]
     if draw(st.integers(0, 3)) == 0:
         basis.append(list(draw(st.sampled_from(pin_perms(draw(st.integers(3, 4)))))))
@@ -519,19 +523,25 @@ def check_long_element(case):
 CHECKS["long_element"] = check_long_element
 
 # 1263405 = the simple permutation 14203 with two entries inflated by 12; LULDLURD... pin sequences draw it
+# 1305264, 1426305 = the first two (in lexicographic order) of the 12 simple pin permutations of 7
+# points that have 24 pin words instead of 12 (they can be drawn from either end; measured on the
+# unchanged tree with perm_to_pinword_mapping(7)); 1304625 = the first of the other 88
 LONG_ELEMENTS = [
     {"basis": [[1, 2, 6, 3, 4, 0, 5]]},
+    {"basis": [[1, 3, 0, 5, 2, 6, 4]]},
+    {"basis": [[1, 4, 2, 6, 3, 0, 5]]},
+    {"basis": [[1, 3, 0, 4, 6, 2, 5]]},
     {"basis": [[0, 1, 2, 3, 4, 5], [1, 2, 6, 3, 4, 0, 5]]},
     {"basis": [[5, 4, 0, 3, 2, 6, 1]]},
 ]
 
 
 def shard_generated(acc, shard, nshards, n_bases, max_len, L):
-    count = 1 if n_bases < 20 else len(LONG_ELEMENTS)
+    count = 3 if n_bases < 20 else len(LONG_ELEMENTS)
     for i, case in enumerate(LONG_ELEMENTS[:count]):
         if (nshards - 1 - i) % nshards == shard:
             os.chdir(engine.fresh_dir("dfa7"))
-            acc.record("long_element", check_long_element, dict(case, db=count > 1))
+            acc.record("long_element", check_long_element, dict(case, db=count > 3))
     if shard >= nshards - count and nshards > count:
         return  # these shards are spent on the 7-point elements
     engine.hyp_run(acc, "pinword_dfa", check_pinword_dfa, pinword_dfa_cases(), 60 * n_bases, shard)
